@@ -73,6 +73,36 @@ def showObs (o : Obs) : String := "|".intercalate (fieldsOf o)
 def diffNames (a b : List String) : String :=
   ",".intercalate (((fieldNames.zip (a.zip b)).filter (fun x => x.2.1 != x.2.2)).map (·.1))
 
+/-- `SourceText::iter_columns(p)`: repeated `next_position`; each item is the byte length of the
+step and the position after it (first `n` items) -/
+def iterColumns (m : Metrics) (t : Text) : Nat → Pos → Res (List (Nat × Pos))
+  | 0, _ => .ok []
+  | n + 1, p =>
+    match nextPosition m t p with
+    | .panic => .panic
+    | .ok none => .ok []
+    | .ok (some q) =>
+      -- `&self.text[s.byte..e.byte]`
+      if q.byte < p.byte then .panic else
+      match iterColumns m t n q with
+      | .panic => .panic
+      | .ok rest => .ok ((q.byte - p.byte, q) :: rest)
+
+/-- the column steps of `suf` as the specification sees them: one character, or one whole line break -/
+def specColumns (m : Metrics) (pre : Text) : Nat → Text → List (Nat × Pos)
+  | 0, _ => []
+  | _, [] => []
+  | n + 1, c :: rest =>
+    match m.le, rest with
+    | .crlf, d :: rest' =>
+      if c.code == 13 && d.code == 10 then
+        (c.size + d.size, Spec.canon m (pre ++ [c, d])) :: specColumns m (pre ++ [c, d]) n rest'
+      else (c.size, Spec.canon m (pre ++ [c])) :: specColumns m (pre ++ [c]) n rest
+    | _, _ => (c.size, Spec.canon m (pre ++ [c])) :: specColumns m (pre ++ [c]) n rest
+
+def showColumns (l : List (Nat × Pos)) : String :=
+  "[" ++ ";".intercalate (l.map fun (k, q) => s!"{k}:{q.byte}.{q.line}.{q.col}") ++ "]"
+
 /-- fields: text, le, tab, pos, pattern, predId, implObs -/
 def run (fields : List String) : String × String :=
   match fields with
@@ -82,14 +112,16 @@ def run (fields : List String) : String × String :=
     let p := parsePos p
     let pat := parseText pat
     let f := classPred (nat! pid)
-    let mo := showObs (model m t p pat f)
+    let mo := showObs (model m t p pat f) ++ "|" ++ showRes showColumns (iterColumns m t 12 p)
     match Spec.cutAt m t p.byte with
     | none => (mo, "SKIP base is not an aligned boundary")
     | some (pre, suf) =>
       if Spec.canon m pre != p then (mo, "SKIP base is not canonical") else
-      let so := fieldsOf (ofSpec (Spec.navSpec m pre suf pat f))
+      let so := fieldsOf (ofSpec (Spec.navSpec m pre suf pat f)) ++ [showColumns (specColumns m pre 12 suf)]
       let io := impl.splitOn "|"
-      if io == so then (mo, "ok") else (mo, "FAIL " ++ diffNames io so ++ " expected " ++ "|".intercalate so)
+      if io == so then (mo, "ok")
+      else (mo, "FAIL " ++ diffNames io so ++ (if io.getLast? != so.getLast? then ",iter_columns" else "") ++
+        " expected " ++ "|".intercalate so)
   | _ => ("?", "FAIL bad case line")
 
 end Tephra.Fam.Nav
